@@ -113,19 +113,26 @@ Theorem C10_new_binding_locked :
 Proof. exact new_binding_locked. Qed.
 Print Assumptions C10_new_binding_locked.
 
-(* the rule is wrong for deposits made by a coinbase transaction: the stored maturity is the coinbase
-   maturity, so the wallet calls such a deposit withdrawable (and shows frozen period = coinbase
-   maturity - 1) while consensus still locks it *)
-Theorem C10_coinbase_deposit_refuted :
+(* a deposit made by a coinbase transaction is locked by the coinbase maturity and by its script *)
+Theorem C10_withdrawable_coinbase_deposit :
+  forall p st c, c_maturity c = maturity_of p true (c_class c) ->
+    (mature st c = true <-> p_cbmat p <= confs st c /\ script_maturity p (c_class c) <= confs st c).
+Proof. exact coinbase_deposit_both_locks. Qed.
+Print Assumptions C10_withdrawable_coinbase_deposit.
+
+(* the code as first found (repaired in 91b07dd) stored the coinbase maturity whatever the script says: the
+   wallet called such a deposit withdrawable (and showed frozen period = coinbase maturity - 1) while
+   consensus still locked it *)
+Theorem C10_coinbase_deposit_unfixed_refuted :
   exists p bp st c,
-    c_maturity c = maturity_of p true (c_class c) /\ c_class c = CStaking 10 /\
+    c_maturity c = maturity_as_found p true (c_class c) /\ c_class c = CStaking 10 /\
     mature st c = true /\
     match csv_operand bp (c_class c) (c_height c) with
     | Some v => sequence_lock_active (c_height c) v (fst (tip st) + 1) = false
     | None => False
     end.
 Proof. exact coinbase_deposit_maturity_refuted. Qed.
-Print Assumptions C10_coinbase_deposit_refuted.
+Print Assumptions C10_coinbase_deposit_unfixed_refuted.
 
 (* withdrawal inputs carry exactly the sequence the script engine demands for the lock (the least one) *)
 Theorem C10_sequence :
